@@ -12,9 +12,9 @@ import calendar
 
 @dispatcher.register_for('DATE')
 def DATE(year, month, day):
-    year = utils.parse_number(year)
-    month = utils.parse_number(month)
-    day = utils.parse_number(day)
+    year = utils.parse_integer(year)
+    month = utils.parse_integer(month)
+    day = utils.parse_integer(day)
     if utils.any_is_error((year, month, day)):
         return error.VALUE
     if year < 1900:
@@ -24,10 +24,10 @@ def DATE(year, month, day):
 
 @dispatcher.register_for('TIME')
 def TIME(hour, minute, second):
-    year = utils.parse_number(hour)
-    minute = utils.parse_number(minute)
-    second = utils.parse_number(second)
-    if utils.any_is_error((year, minute, second)):
+    hour = utils.parse_integer(hour)
+    minute = utils.parse_integer(minute)
+    second = utils.parse_integer(second)
+    if utils.any_is_error((hour, minute, second)):
         return error.VALUE
     return datetime.datetime(1900, 1, 1, hour, minute, second)
 
